@@ -1026,6 +1026,8 @@ class Exe:
         ct = self.ctype(n)
         if op == '&':
             return self.lval(e, st)
+        if op == '__extension__':
+            return self._ev(e, st)
         if op == '*':
             return self.lval(n, st)
         if op == '!':
@@ -1173,7 +1175,25 @@ class Exe:
         raise FrontEndError('atomic expression shape')
 
     def _ev_StmtExpr(self, n, st):
-        raise FrontEndError('statement expression')
+        """GNU statement expression ({ ... }) (e.g. the expansion of assert): executed in place; value of the last expression."""
+        from .flow import ErrorExit
+        body = n['inner'][0]
+        outs = self.flow.exec_stmt(body, st.fork())
+        nxt = [o for o in outs if o.kind == 'next']
+        for o in outs:
+            if o.kind == 'error':
+                self.errors.append(o.st)
+            elif o.kind != 'next':
+                raise FrontEndError('control flow leaves a statement expression')
+        if not nxt:
+            raise PathDead()
+        from .flow import merge_outcomes
+        nxt = merge_outcomes(nxt, force=True)
+        if len(nxt) != 1:
+            raise FrontEndError('statement expression with unmergeable paths')
+        r = nxt[0].st
+        st.pc, st.heap, st.ghost = r.pc, r.heap, r.ghost
+        return None
 
     def _ev_InitListExpr(self, n, st):
         tmp = self.new_obj('initlist', self.ctype(n), n=1, kind='local')
